@@ -45,13 +45,16 @@ FOREIGN = ('foreign', 'KG_FOREIGN', 'tuples naming an empty cell or a man of the
 SPECIAL = {'king', 'pspecial', 'ep', 'castling', 'null', 'foreign'}   # where the property texts locate the risk
 
 
+HEAVY_GROUPS = {'castling', 'pspecial', 'foreign'}   # symbolic kind / attack checks: about twice the memory of the constant-kind groups
+
+
 def fam(prefix, prop, rust_fn, stubset, unwind, cap_s, mem_gb, what, groups=GROUPS, quick=SPECIAL, props=None, tiers_all=None,
-        extra_const=''):
+        extra_const='', light_mem=None):
     """one harness per (side, move-kind group); the cases are constant at symbolic-execution time"""
     for sk, sc, sd in SIDES:
         for gk, gc, gd in groups:
             t = tiers_all if tiers_all is not None else (QT if (quick == 'all' or gk in quick) else T)
-            reg('%s_%s_%s' % (prefix, sk, gk), prop, t, cap_s, mem_gb, '%s; %s; moves: %s' % (FULL, sd, gd),
+            reg('%s_%s_%s' % (prefix, sk, gk), prop, t, cap_s, mem_gb if (light_mem is None or gk in HEAVY_GROUPS) else light_mem, '%s; %s; moves: %s' % (FULL, sd, gd),
                 '%s::<_, %s, %s%s>' % (rust_fn, sc, gc, extra_const), stubset, unwind, props=props,
                 bounds='all fixed 64-iteration loops fully unrolled; %s' % what)
 
@@ -95,8 +98,8 @@ for sk, sc, sd in SIDES:
 
 # ---------------------------------------------------------------- C06
 reg('c06_wellformed_exact', 'C06', QT, 300, 4, 'all 10 x 13 x 64 x 64 move tuples (exhaustive)', 'c06::wellformed_exact', unwind=9)
-fam('c06_semilegal_validator', 'C06', 'c06::semilegal_validator_exact', 's12', 65, 2400, 10, 'all well-formed tuples of the group',
-    groups=GROUPS + [FOREIGN], quick='all', props=['C06', 'C19'])
+fam('c06_semilegal_validator', 'C06', 'c06::semilegal_validator_exact', 's12', 65, 2400, 12, 'all well-formed tuples of the group',
+    groups=GROUPS + [FOREIGN], quick='all', props=['C06', 'C19'], light_mem=4)
 GENS = [('all', 'G_ALL'), ('capture', 'G_CAPTURE'), ('simple', 'G_SIMPLE'), ('simple_no_promote', 'G_SIMPLE_NO_PROMOTE'),
         ('simple_promote', 'G_SIMPLE_PROMOTE')]
 GEN11 = ' + GEN(1): mover has at most one man of each non-king kind (opponent arbitrary); '
@@ -122,11 +125,11 @@ for gk, gc in GENS:
             bounds='GEN(1); composition with c01_prefiltered (filter = rules) is a one-line argument, stated in DESIGN.md C01')
 
 # ---------------------------------------------------------------- C03 / C04 / C05
-fam('c03_make_unmake', 'C03', 'c03::make_unmake_exact', 's12', 65, 3600, 12, 'all semilegal (legal or not) and null moves of the group',
+fam('c03_make_unmake', 'C03', 'c03::make_unmake_exact', 's12', 65, 3600, 11, light_mem=7, what= 'all semilegal (legal or not) and null moves of the group',
     groups=GROUPS + [NULLG], props=['C03', 'C04', 'C05', 'C19'])
 fam('c04_nested', 'C04', 'c03::nested_make_unmake', 's12', 65, 7200, 16, 'outer: legal moves of the group; inner: any semilegal or null move',
     quick=set())
-fam('c05_hash_delta', 'C05', 'c05::hash_delta', 's12', 65, 3600, 12, 'all semilegal and null moves of the group; arbitrary pre-state hash',
+fam('c05_hash_delta', 'C05', 'c05::hash_delta', 's12', 65, 3600, 8, light_mem=5, what= 'all semilegal and null moves of the group; arbitrary pre-state hash',
     groups=GROUPS + [NULLG])
 reg('c05_hash_features', 'C05', QT, 600, 6, 'all keys of the build under test (position-free)', 'c05::hash_features', unwind=9)
 reg('c05_scratch_hash_def', 'C05', QT, 2400, 14, 'every raw board (no validity assumption); real RawBoard::zobrist_hash',
@@ -154,7 +157,7 @@ for sk, sc, sd in SIDES:
 reg('c07_diag_wiring_semi_w', 'C07', NEVER, 1800, 16, 'diagnostic', 'c07::wiring_semi::<_, WHITE>', 's126', 65, gen_k=(2, 0), props=[])
 
 # ---------------------------------------------------------------- C10
-fam('c10_uci_struct_roundtrip', 'C10', 'c10::uci_struct_roundtrip', 's12', 65, 2400, 10, 'all semilegal moves of the group', quick='all')
+fam('c10_uci_struct_roundtrip', 'C10', 'c10::uci_struct_roundtrip', 's12', 65, 2400, 8, 'all semilegal moves of the group', quick='all', light_mem=5)
 for part, pc, pd in [('semi', 'UA_SEMI', 'semilegal reader <=> a semilegal move with these fields exists'),
                      ('legal', 'UA_LEGAL', 'legal reader <=> a legal move with these fields exists'),
                      ('make', 'UA_MAKE', 'applying the value <=> the legal reader accepts; null never')]:
